@@ -894,6 +894,7 @@ pub fn c12(tier: &str) -> i32 {
     execute(&mut out, plans, &mon, &["op:offgrid-create", "op:modify", "modify-requeue"], if t { 3000 } else { 50 });
     // many populated levels per side: the published levels must account for the resting volume
     crate::bulk::deep_ladders(&mut out, t);
+    crate::marketx::c12_market_part(&mut out, t);
     crate::envprops::c12_env_part(&mut out, t);
     out.finish()
 }
@@ -1031,6 +1032,18 @@ pub fn c05_book(out: &mut Outcome, t: bool) {
         ob.market_vols = vec![];
         ob.max_unplaced = 2;
         with_observe(&mut plans, "create/place at one price, clock {0,+1}", &ob, 3, if t { 7 } else { 5 });
+    }
+    // from a one-sided three-level book: created-but-unplaced orders, reads as an operation, ties
+    // (pairs of mutations at one clock value that restore every aggregate a cheap stamp could hold)
+    {
+        let mut ob = Profile::core("ties-observe-from-ladder", 1, 10);
+        ob.dt = DtMode::ZeroOneFree;
+        ob.create_place = true;
+        ob.limit_vols = vec![2];
+        ob.market_vols = vec![];
+        ob.observe_op = true;
+        let base = vec![lim(false, 10, 2), lim(false, 12, 2)];
+        plans.push(Plan { label: "from asks at 10 and 12: create/place, cancels, reads as operations, clock {0,+1}".into(), profile: ob, levels: 3, depth: if t { 5 } else { 4 }, base });
     }
     // books crossed while trading was off, then an aggressor whose remainder rests on a tied level
     let mut x = core.clone();
